@@ -57,7 +57,7 @@ def build(tier, seed):
 
     def hc():
         mod = C03.load()
-        ou = src.shadow_load(OU, {"PauliSum": mod.PauliSum, "PauliTerm": mod.PauliTerm})
+        ou = src.shadow_load(OU, {"PauliSum": mod.PauliSum, "PauliTerm": mod.PauliTerm}, rebind={"orquestra.quantum.operators._pauli_operators": mod})
         a, b = C03.gc("a"), C03.gc("b")
         q = 0
         for ops in C03.strings():
@@ -83,7 +83,7 @@ def build(tier, seed):
 
     def rev():
         mod = C03.load()
-        ut = src.shadow_load(UT, {"PauliSum": mod.PauliSum, "PauliTerm": mod.PauliTerm})
+        ut = src.shadow_load(UT, {"PauliSum": mod.PauliSum, "PauliTerm": mod.PauliTerm}, rebind={"orquestra.quantum.operators._pauli_operators": mod})
         a, b = C03.gc("a"), C03.gc("b")
         q = 0
         for n in (3, 4):
